@@ -246,7 +246,7 @@ pub fn sh_of1(k: Sh, w: u32, orig: u32, res: u32, cf_after: bool) -> bool {
 /// Expected FLAGS word after a shift/rotate, and the mask of bits that are
 /// architecturally defined for this (kind, count).
 ///  count == 0            : nothing changes, every bit compared
-///  shifts, count >= 1    : CF, SF, ZF, PF defined (AF undefined); OF only for count == 1
+///  shifts, count >= 1    : CF, SF, ZF, PF defined, AF unchanged (property C02); OF only for count == 1
 ///  rotates, count >= 1   : CF defined; OF only for count == 1; SF/ZF/PF/AF must be unchanged
 pub fn sh_flags(k: Sh, w: u32, orig: u32, cf_in: bool, count: u32, old: u16) -> (u32, u16, u16) {
     if count == 0 {
@@ -262,7 +262,8 @@ pub fn sh_flags(k: Sh, w: u32, orig: u32, cf_in: bool, count: u32, old: u16) -> 
     if is_shift {
         let szp = if w == 8 { szp8(res as u8) } else { szp16(res as u16) };
         f = merge(f, szp, SF | ZF | PF);
-        mask &= !AF;
+        // AF: the manual leaves it undefined after a shift, the property statement (C02) says
+        // "nothing else in the machine changes": the stricter reading is checked (AF unchanged)
     }
     if count == 1 {
         mask |= OF;
